@@ -81,9 +81,38 @@ def cross_tree():
     return spec
 
 
+def sibling_names_tree(case_collision):
+    """Type names of one directory whose module names are close.  With case_collision=False the module names
+    still differ (loot__table / loot_table, x1_thing / x_1_thing ...): every class must be exported.  With
+    case_collision=True two names are equal up to case (ItemID / ItemId -> item_id.py twice): known finding 14."""
+    spec = campaign.corpus_spec()
+    pairs = [("Loot_Table", "LootTable"), ("X1Thing", "X_1Thing"), ("A_B", "AB9")]
+    if case_collision:
+        pairs = [("ItemID", "ItemId"), ("NPCKind", "NpcKind")]
+    for path, (a, b) in zip(("map", "pub", "net/server"), pairs):
+        spec.files[path].structs.append(S.Struct(a, [S.Field("x", "char")]))
+        spec.files[path].enums.append(S.Enum(b, "char", [("A", 1, None), ("B", 2, None)]))
+    names = [n for pair in pairs[:len(("map", "pub", "net/server"))] for n in pair]
+    spec.files["net/server"].structs.append(S.Struct("UsesSiblings", [S.Field("f%d" % j, n) for j, n in enumerate(names)]))
+    return spec
+
+
+class _Relabel:
+    """Every violation on the case-collision tree is the known finding, whatever its symptom."""
+
+    def __init__(self, rec):
+        self._rec = rec
+
+    def violation(self, mech, msg, case=None):
+        return self._rec.violation("module-name-collision:type-names-equal-up-to-case", "[%s] %s" % (mech, msg), case)
+
+    def __getattr__(self, name):
+        return getattr(self._rec, name)
+
+
 def shards(tier, seed):
     out = []
-    for ti in [-1, 2000] + list(range(TREES[tier])) + [1000 + k for k in range(N_COLLISION[tier])]:
+    for ti in [-1, 2000, 3000, 3001] + list(range(TREES[tier])) + [1000 + k for k in range(N_COLLISION[tier])]:
         for part in range(4):
             out.append({"tree": ti, "part": part, "parts": 4})
     return out
@@ -104,7 +133,12 @@ def classify(mech, text, hazards=()):
 
 def run(shard, rec, tier, seed):
     ti = shard["tree"]
-    if ti == 2000:
+    if ti in (3000, 3001):
+        spec = sibling_names_tree(ti == 3001)
+        rec.count("sibling-name-trees")
+        if ti == 3001:
+            rec = _Relabel(rec)
+    elif ti == 2000:
         spec = cross_tree()
         rec.count("cross-reference-trees")
     elif ti >= 1000:
